@@ -14,6 +14,7 @@ type Program struct {
 	Unordered bool     `json:"unordered,omitempty"` // traces compared as multisets (map ranges with >= 2 entries)
 	TestFile  bool     `json:"test_file,omitempty"` // rendered into a _test.go file
 	Twin      string   `json:"twin,omitempty"`      // "yieldfrom-to-range": a metamorphic twin is compiled alongside (C05)
+	Imports   []string `json:"imports,omitempty"`   // extra import specs of the file the program is rendered into (e.g. `"time"`)
 }
 
 type Param struct {
